@@ -98,6 +98,9 @@ static PDU* extra(int id, vh::Rng& rng, Entry& e) {
     case 141: { PDUCacher<UDP> c(UDP(7, 9)); c /= raw(rng, rng.range(1, 40)); return (eth0() / ip0() / c).clone(); }
     case 142: { ICMP ic(ICMP::TIME_EXCEEDED); ic.extensions().add_extension(some_ext(rng)); Bytes q = quoted4(rng, 4 * rng.range(0, 40)); ic.type(ICMP::ECHO_REPLY); return (eth0() / ip0() / ic / RawPDU(q.begin(), q.end())).clone(); }
     case 143: { ICMPv6 ic(ICMPv6::TIME_EXCEEDED); ic.extensions().add_extension(some_ext(rng)); Bytes q = quoted6(rng, 8 * rng.range(0, 14)); ic.type(ICMPv6::ECHO_REPLY); return (eth0() / ip60() / ic / RawPDU(q.begin(), q.end())).clone(); }
+    // label stacks over something that is not an IP datagram (opaque payload, an Ethernet pseudowire): the last label ends the stack
+    case 149: { MPLS a; a.label(rng.below(1 << 20)); a.ttl(9); Bytes pl(1 + rng.below(30), 0x01); return (eth0() / a / RawPDU(pl.begin(), pl.end())).clone(); }
+    case 150: { MPLS a; a.label(16 + rng.below(1000)); a.ttl(9); MPLS b; b.label(rng.below(1 << 20)); b.ttl(8); Bytes pl(4 + rng.below(30), 0x02); return (eth0() / Dot1Q(3) / a / b / RawPDU(pl.begin(), pl.end())).clone(); }
     // ICMP / ICMPv6 errors with several extension objects, one of odd length in front of another (the structure's checksum covers all)
     case 147: { ICMP ic(ICMP::TIME_EXCEEDED); ICMPExtension a(1, 1); a.payload(ICMPExtension::payload_type(3, 0xa1)); ICMPExtension b(2, 1); b.payload(ICMPExtension::payload_type(4 + rng.below(4), 0xb2)); ICMPExtension c(3, 2); c.payload(ICMPExtension::payload_type(1, 0xc3));
                 ic.extensions().add_extension(a); ic.extensions().add_extension(b); ic.extensions().add_extension(c); Bytes q = quoted4(rng, 4 * rng.range(25, 40)); return (eth0() / ip0() / ic / RawPDU(q.begin(), q.end())).clone(); }
